@@ -286,10 +286,52 @@ class ShuffledIterdir:
             return iter(items)
 
         Path.iterdir = iterdir
+        # the same perturbation for code that walks the tree through os.scandir / os.listdir / os.walk
+        self.orig_scandir, self.orig_listdir = os.scandir, os.listdir
+
+        class _Shuffled:
+            def __init__(s2, path):
+                with shim.orig_scandir(path) as it:
+                    s2.entries = list(it)
+                if len(s2.entries) > 1:
+                    shim.rnd.shuffle(s2.entries)
+                    shim.count += 1
+                s2.i = 0
+
+            def __iter__(s2):
+                return s2
+
+            def __next__(s2):
+                if s2.i >= len(s2.entries):
+                    raise StopIteration
+                s2.i += 1
+                return s2.entries[s2.i - 1]
+
+            def __enter__(s2):
+                return s2
+
+            def __exit__(s2, *a):
+                return False
+
+            def close(s2):
+                pass
+
+        def scandir(path="."):
+            return _Shuffled(path)
+
+        def listdir(path="."):
+            items = shim.orig_listdir(path)
+            if len(items) > 1:
+                shim.rnd.shuffle(items)
+                shim.count += 1
+            return items
+
+        os.scandir, os.listdir = scandir, listdir
         return self
 
     def __exit__(self, *a):
         Path.iterdir = self.orig
+        os.scandir, os.listdir = self.orig_scandir, self.orig_listdir
 
 
 def enumeration(rnd, acc, sample=False):
